@@ -107,12 +107,9 @@ def api_call(job):
         return out
     wrap.begin()
     try:
-        if api == "prep":
-            qc = sc.get_preparation_circuit(arg, conn)
-        elif api == "readout":
-            qc = sc.get_readout_circuit(arg, conn)
-        else:
-            qc = sc.compress_preparation_circuit(arg, conn)
+        fn = {"prep": sc.get_preparation_circuit, "readout": sc.get_readout_circuit, "compress": sc.compress_preparation_circuit}[api]
+        # the documented default of the connectivity parameter is "all": exercise the default path as well
+        qc = fn(arg) if (conn == "all" and job.get("default_conn")) else fn(arg, conn)
         out["gates"] = impl.gates_of(qc)
         out["nq"] = qc.num_qubits
         _check_recent(out)
